@@ -379,7 +379,7 @@ func (cs *ContractSet) loadFile(file string) error {
 				}
 				label := fs[0]
 				rest := strings.TrimSpace(fs[1])
-				if label == "after-call" || label == "before-call" || label == "body-end" {
+				if label == "after-call" || label == "before-call" || label == "body-end" || label == "after-loop" {
 					fs2 := strings.SplitN(rest, " ", 2)
 					if len(fs2) != 2 {
 						return fail(fmt.Errorf("assert after-call f#k name: EXPR"))
